@@ -34,7 +34,7 @@ PROPS = {
                  'single-use) in order, caches the id mapping both ways and holds dbMutex throughout; getKeyIDForID maps a stored key text with its stored '
                  'byte length (NUL-safe); build() runs nothing when BEGIN EXCLUSIVE fails; open(): a database is interpreted only when the stored schema AND client '
                  'version both match, otherwise it is rejected (no recreation allowed: nothing deleted) or deleted and recreated completely; every '
-                 'statement is prepared from its own SQL text on the open connection; no SQLite call on a closed or null connection; the key column is '
+                 'statement is prepared from its own SQL text on the open connection; no SQLite call on a closed or null connection; a failed open() keeps no connection (so the next operation starts over with the version check); the key column is '
                  'declared with TEXT/BLOB affinity; setRuleResult binds every field of a result to the column the table declares for it and encodes '
                  'the dependency list word by word (db id << 2 | single-use << 1 | order-only) in order -- the inverse of what lookupRuleResult decodes; '
                  'getCurrentEpoch / setCurrentIteration read and write the iteration column of info with the value given, finalize their statement; '
